@@ -224,8 +224,8 @@ Proof.
   - destruct (zlookup c (g_comps (n_dir st))) as [host|] eqn:El.
     + destruct (host =? g') eqn:E; simpl.
       * rewrite (zmemk_some _ _ _ El).
-        pose proof (unreg_comp_O (n_disc st) c None true) as HO.
-        destruct (d_unregister_computation (n_disc st) c None true) as [[[d1 o1] e1] x1]. simpl in *.
+        pose proof (unreg_comp_O (n_disc st) c None false) as HO.
+        destruct (d_unregister_computation (n_disc st) c None false) as [[[d1 o1] e1] x1]. simpl in *.
         split; auto. right. split; auto. intros d x H. apply in_app_or in H as [H|H].
         -- apply to_self_In in H as [_ H]. apply HO in H as [->| ->]; eauto.
         -- apply to_all_In in H as [_ ->]. eauto.
@@ -234,8 +234,8 @@ Proof.
     + rewrite (zmemk_none _ _ El). simpl.
       split; auto. left. repeat split; auto. discriminate.
   - simpl. destruct (zmemk c (g_comps (n_dir st))) eqn:Ek.
-    + pose proof (unreg_comp_O (n_disc st) c None true) as HO.
-      destruct (d_unregister_computation (n_disc st) c None true) as [[[d1 o1] e1] x1]. simpl in *.
+    + pose proof (unreg_comp_O (n_disc st) c None false) as HO.
+      destruct (d_unregister_computation (n_disc st) c None false) as [[[d1 o1] e1] x1]. simpl in *.
       split; auto. right. split; auto. intros d x H. apply in_app_or in H as [H|H].
       * apply to_self_In in H as [_ H]. apply HO in H as [->| ->]; eauto.
       * apply to_all_In in H as [_ ->]. eauto.
